@@ -9,6 +9,8 @@ use std::io;
 
 pub use client::Channel;
 pub(crate) use server::start_rpc_server;
+#[cfg(datacake_verif)]
+pub(crate) use server::verif_handle;
 pub use status::{ArchivedErrorCode, ArchivedStatus, ErrorCode, Status};
 
 #[derive(Debug, thiserror::Error)]
